@@ -757,7 +757,7 @@ impl World {
 
     fn connect(&mut self, c: usize) {
         if self.cfg.alternate_clean && c == 0 {
-            self.clients[c].clean = self.ch.coin(1, 5);
+            self.clients[c].clean = self.ch.coin(1, 3);
         }
         let clean = self.clients[c].clean;
         let id = self.clients[c].id.clone();
